@@ -9,12 +9,47 @@ import (
 
 type Locker = sync.Locker
 
-// Pool and Map are data containers, not scheduling constructs: the real ones are safe because only
-// the baton holder runs.
-type (
-	Pool = sync.Pool
-	Map  = sync.Map
-)
+// Map is a data container, not a scheduling construct: the real one is safe because only the baton
+// holder runs.
+type Map = sync.Map
+
+// Pool models sync.Pool deterministically: a LIFO that starts every execution empty (the real one
+// keeps per-P caches and is cleared by the garbage collector, which would make replays diverge).
+// What the real Pool is allowed to do - forget an item - is an environment choice (default: keep).
+type Pool struct {
+	New   func() any
+	items []any
+	epoch int
+}
+
+func (p *Pool) fresh() {
+	if e := vs.RunSeq(); e != p.epoch {
+		p.epoch, p.items = e, nil
+	}
+}
+
+func (p *Pool) Get() any {
+	p.fresh()
+	if n := len(p.items); n > 0 {
+		x := p.items[n-1]
+		p.items = p.items[:n-1]
+		if vs.Choose("sync.Pool forgets the item", 2) == 0 {
+			return x
+		}
+	}
+	if p.New != nil {
+		return p.New()
+	}
+	return nil
+}
+
+func (p *Pool) Put(x any) {
+	if x == nil {
+		return
+	}
+	p.fresh()
+	p.items = append(p.items, x)
+}
 
 type Mutex struct {
 	locked bool
